@@ -762,6 +762,31 @@ def b14(ctx, rid):
     c08.d7(ctx, rid)
 
 
+def b15(ctx, rid):
+    """every child that enters the closed list is merged into its group filters: a `Leaf` (the slot content of the children
+    vector) is only ever built in add_child, the function whose merge into the node and every ancestor C10.B4 verifies.  A
+    re-inserted child that skips add_child is pruned by its group filter for every key written since its filter was last merged."""
+    prog = ctx.prog
+    n = 0
+    for f in prog.fns.values():
+        if f.file != 'src/filter/hierarchical.rs':
+            continue
+        for i, b in enumerate(f.blocks):
+            if b['c'] or i not in f.reachable():
+                continue
+            for st in b['s']:
+                if st['k'] == 'a' and st['r']['k'] == 'agg' and st['r'].get('adt') == 'filter::hierarchical::Leaf':
+                    n += 1
+                    root = prog.fns[f.id].root
+                    key = 'child-enters-through-add_child|%s' % root
+                    if root.endswith('::add_child'):
+                        ctx.ok(rid, key, f.where(i), 'built in add_child')
+                    else:
+                        ctx.bad(rid, key, f.where(i), 'a child slot (`Leaf`) is filled in `%s`, not in add_child: the child\'s filter is not merged into its node and the ancestors, so the group filter answers `absent` for the keys only this child holds' % root.split('::')[-1])
+    if n < 1:
+        raise core.AnchorLost('Leaf constructions in src/filter/hierarchical.rs: %d' % n)
+
+
 RULES = [
     Rule('C10.B1', 'every `definitely absent` answer lies in its owner and is controlled by that owner\'s justifying test; defaults are NeedAdditionalCheck', b1, 11),
     Rule('C10.B2', 'filter.add(key) dominates every insertion into the in-memory header map', b2, 2),
@@ -776,5 +801,6 @@ RULES = [
     Rule('C10.B12', 'a fresh bloom / range filter is only attached to an index without records', b12, 2),
     Rule('C10.B13', 'the candidate iterator never pushes a vacated leaf (its None would end the whole traversal)', b13, 1),
     Rule('C10.B14', 'no decision is carried from a released guard into a later write section of the same filter lock (C08.D7 instances)', b14, 1),
+    Rule('C10.B15', 'a child slot of the closed list is only filled in add_child (whose filter merge B4 verifies)', b15, 1),
     Rule('C10.B9', 'the range merge can extend both bounds in one call', b9, 1),
 ]
